@@ -1,7 +1,7 @@
 CONSTANTS
   ProgOf <- FamProgOf
   MaxSteps = 4000
-  Budget = 4
+  Budget = 3
   NRandom = 30000
   MaxDepth = 2
   EmitOn = TRUE
